@@ -25,7 +25,7 @@
 #undef SSL_SESSION_TABLE_SIZE
 #define SSL_SESSION_TABLE_SIZE 3
 #define C14_TABLE 3
-#define C14_INUSE_MAX 0x40000000       /* type invariant: far fewer than 2^30 live sessions share an entry */
+#define C14_INUSE_MAX 0x40000000       /* harness domain: far fewer than 2^30 live sessions share an entry (no int32 overflow of inUse) */
 
 static sslSessionEntry_t g_sessionTable[SSL_SESSION_TABLE_SIZE];
 static DLListEntry g_sessionChronList;
@@ -35,6 +35,8 @@ static ssl_t g_ssl;
 static sslSessionId_t g_sid;
 static const sslCipherSpec_t g_specA, g_specB;
 static sslSessionEntry_t old_tab[C14_TABLE];       /* copy of the table taken by the harness right before the call */
+static int old_pos[C14_TABLE];                     /* position of each entry in the chronological list before the call */
+static unsigned char old_sid[SSL_MAX_SESSION_ID_SIZE], old_sidlen;   /* the session's id before the call */
 
 /* ghost state of the assumed models, ONE struct (README: cost of write-set checks) */
 static struct
@@ -112,7 +114,7 @@ static int c14_wf(void)
     for (i = 0; i < C14_TABLE; i++)
     {
         seen[i] = 0;
-        if (g_sessionTable[i].inUse < 0 || g_sessionTable[i].inUse > C14_INUSE_MAX)
+        if (g_sessionTable[i].inUse < 0)
         {
             return 0;
         }
@@ -220,8 +222,8 @@ static void c14_build_table(const struct tab_in *t)
         g_sessionTable[i].id[1] = 0;
         g_sessionTable[i].id[2] = 0;
         g_sessionTable[i].id[3] = 0;
-        for (j = 0; j < SSL_MAX_SESSION_ID_SIZE - 4; j++) { g_sessionTable[i].id[4 + j] = t->id_tail[i][j]; }
-        for (j = 0; j < SSL_HS_MASTER_SIZE; j++) { g_sessionTable[i].masterSecret[j] = t->ms[i][j]; }
+        Memcpy(g_sessionTable[i].id + 4, t->id_tail[i], SSL_MAX_SESSION_ID_SIZE - 4);
+        Memcpy(g_sessionTable[i].masterSecret, t->ms[i], SSL_HS_MASTER_SIZE);
         g_sessionTable[i].cipher = c14_cipher(t->cipher_sel[i]);
         g_sessionTable[i].majVer = t->majVer[i];
         g_sessionTable[i].minVer = t->minVer[i];
@@ -250,7 +252,10 @@ static void c14_snapshot_table(void)
     for (i = 0; i < C14_TABLE; i++)
     {
         old_tab[i] = g_sessionTable[i];
+        old_pos[i] = c14_list_pos(i);
     }
+    Memcpy(old_sid, g_ssl.sessionId, SSL_MAX_SESSION_ID_SIZE);
+    old_sidlen = g_ssl.sessionIdLen;
 }
 
 /* ---- pointer-free description of the session object ---- */
@@ -270,13 +275,11 @@ struct __attribute__((packed)) ssl_in
 
 static void c14_build_ssl(const struct ssl_in *s)
 {
-    int j;
-
     g_ssl.flags = s->flags;
     g_ssl.sessionIdLen = s->sessionIdLen;
-    for (j = 0; j < SSL_MAX_SESSION_ID_SIZE; j++) { g_ssl.sessionId[j] = s->sessionId[j]; }
-    for (j = 0; j < SSL_HS_MASTER_SIZE; j++) { g_ssl.sec.masterSecret[j] = s->masterSecret[j]; }
-    for (j = 0; j < SSL_HS_RANDOM_SIZE; j++) { g_ssl.sec.serverRandom[j] = s->serverRandom[j]; }
+    Memcpy(g_ssl.sessionId, s->sessionId, SSL_MAX_SESSION_ID_SIZE);
+    Memcpy(g_ssl.sec.masterSecret, s->masterSecret, SSL_HS_MASTER_SIZE);
+    Memcpy(g_ssl.sec.serverRandom, s->serverRandom, SSL_HS_RANDOM_SIZE);
     g_ssl.cipher = c14_cipher(s->cipher_sel);
     g_ssl.activeVersion = s->activeVersion;
     g_ssl.extFlags.extended_master_secret = s->ems ? 1 : 0;
@@ -306,24 +309,25 @@ static int c14_id_equal(const unsigned char *a, const unsigned char *b)
     return 1;
 }
 
-/* content of entry e (everything but the list node) is what it was before the call */
+/* content of entry e (everything but the list node) is what it was before the
+   call; the byte arrays are compared at the ghost positions gh.k / gh.m (the
+   predicate is only used as a CONSEQUENT, where a ghost index means "all") */
 static int c14_entry_unchanged(unsigned e)
 {
-    int j;
-
-    for (j = 0; j < SSL_MAX_SESSION_ID_SIZE; j++) { if (T(e).id[j] != OT(e).id[j]) { return 0; } }
-    for (j = 0; j < SSL_HS_MASTER_SIZE; j++) { if (T(e).masterSecret[j] != OT(e).masterSecret[j]) { return 0; } }
-    return T(e).cipher == OT(e).cipher && T(e).majVer == OT(e).majVer && T(e).minVer == OT(e).minVer &&
+    return T(e).id[GK] == OT(e).id[GK] && T(e).masterSecret[GM] == OT(e).masterSecret[GM] &&
+           T(e).cipher == OT(e).cipher && T(e).majVer == OT(e).majVer && T(e).minVer == OT(e).minVer &&
            T(e).extendedMasterSecret == OT(e).extendedMasterSecret && TIME_EQ(T(e).startTime, OT(e).startTime) &&
            T(e).inUse == OT(e).inUse;
 }
 
-static int c14_secret_is_zero(unsigned e)
-{
-    int j;
+/* OWNS: the session (as it was before the call) holds a reference on entry e:
+   it carries the entry's full 32-byte id and the entry is referenced at all.
+   Used as an ANTECEDENT, hence a real loop over the 32 bytes (c14_id_equal). */
+#define OLD_IDX   ID_INDEX(old_sid)
+#define OLD_IDXE  ((unsigned) (OLD_IDX < C14_TABLE ? OLD_IDX : 0))
+#define OWNS_OLD(e) (old_sidlen == SSL_MAX_SESSION_ID_SIZE && (e) < C14_TABLE && c14_id_equal(OT(e).id, old_sid) && OT(e).inUse >= 1)
+#define CHANGED(e)  (!c14_entry_unchanged(e))
 
-    for (j = 0; j < SSL_HS_MASTER_SIZE; j++) { if (T(e).masterSecret[j] != 0) { return 0; } }
-    return 1;
-}
-
+/* the loop-free units give the library loops of DFCC a small --unwind and name
+   the few long loops (this one, memcmp) in "unwindset" */
 #endif
